@@ -634,6 +634,40 @@ impl Mass for Locomotive {
         new_mass: Option<si::Mass>,
         side_effect: MassSideEffect,
     ) -> anyhow::Result<()> {
+        // a rejected update must leave the locomotive unchanged
+        let backup = self.clone();
+        let res = self.set_mass_impl(new_mass, side_effect);
+        if res.is_err() {
+            *self = backup;
+        }
+        res
+    }
+
+    fn derived_mass(&self) -> anyhow::Result<Option<si::Mass>> {
+        match &self.loco_type {
+            PowertrainType::ConventionalLoco(conv) => conv.mass(),
+            PowertrainType::HybridLoco(hev) => hev.mass(),
+            PowertrainType::BatteryElectricLoco(bev) => bev.mass(),
+            PowertrainType::DummyLoco(_) => Ok(None),
+        }
+    }
+
+    fn expunge_mass_fields(&mut self) {
+        match &mut self.loco_type {
+            PowertrainType::ConventionalLoco(conv) => conv.expunge_mass_fields(),
+            PowertrainType::HybridLoco(hev) => hev.expunge_mass_fields(),
+            PowertrainType::BatteryElectricLoco(bev) => bev.expunge_mass_fields(),
+            PowertrainType::DummyLoco(_) => {}
+        };
+    }
+}
+
+impl Locomotive {
+    fn set_mass_impl(
+        &mut self,
+        new_mass: Option<si::Mass>,
+        side_effect: MassSideEffect,
+    ) -> anyhow::Result<()> {
         ensure!(
             side_effect == MassSideEffect::None,
             "At the locomotive level, only `MassSideEffect::None` is allowed"
@@ -674,24 +708,6 @@ impl Mass for Locomotive {
             * uc::ACC_GRAV;
         Ok(())
     }
-
-    fn derived_mass(&self) -> anyhow::Result<Option<si::Mass>> {
-        match &self.loco_type {
-            PowertrainType::ConventionalLoco(conv) => conv.mass(),
-            PowertrainType::HybridLoco(hev) => hev.mass(),
-            PowertrainType::BatteryElectricLoco(bev) => bev.mass(),
-            PowertrainType::DummyLoco(_) => Ok(None),
-        }
-    }
-
-    fn expunge_mass_fields(&mut self) {
-        match &mut self.loco_type {
-            PowertrainType::ConventionalLoco(conv) => conv.expunge_mass_fields(),
-            PowertrainType::HybridLoco(hev) => hev.expunge_mass_fields(),
-            PowertrainType::BatteryElectricLoco(bev) => bev.expunge_mass_fields(),
-            PowertrainType::DummyLoco(_) => {}
-        };
-    }
 }
 
 impl Locomotive {
@@ -702,6 +718,20 @@ impl Locomotive {
     /// * `force_max` - option for setting `self.force_max` directly
     /// * `side_effect` - which dependent parameter to correspondingly update
     pub fn set_force_max(
+        &mut self,
+        force_max: si::Force,
+        side_effect: ForceMaxSideEffect,
+    ) -> anyhow::Result<()> {
+        // a rejected update must leave the locomotive unchanged
+        let backup = self.clone();
+        let res = self.set_force_max_impl(force_max, side_effect);
+        if res.is_err() {
+            *self = backup;
+        }
+        res
+    }
+
+    fn set_force_max_impl(
         &mut self,
         force_max: si::Force,
         side_effect: ForceMaxSideEffect,
@@ -1153,6 +1183,16 @@ impl Locomotive {
     }
 
     pub fn set_mu(&mut self, mu: si::Ratio, mu_side_effect: MuSideEffect) -> anyhow::Result<()> {
+        // a rejected update must leave the locomotive unchanged
+        let backup = self.clone();
+        let res = self.set_mu_impl(mu, mu_side_effect);
+        if res.is_err() {
+            *self = backup;
+        }
+        res
+    }
+
+    fn set_mu_impl(&mut self, mu: si::Ratio, mu_side_effect: MuSideEffect) -> anyhow::Result<()> {
         self.mu = Some(mu);
         match mu_side_effect {
             MuSideEffect::Mass => self.set_mass(
